@@ -7,6 +7,7 @@
 #include <vector>
 #include <algorithm>
 #include <frg/hash_map.hpp>
+#include <frg/string.hpp>
 #include "../engine/verif.hpp"
 #include "../engine/track.hpp"
 
@@ -122,7 +123,9 @@ void run(Ctx &c) {
 		size_t size_before = ref.size();
 		unsigned op = t.pick(12);
 		switch(op) {
-		case 0: case 1: { uint64_t k = absent_key(); int x = nextv++; const V v(x); c.op("insert(%llu, const& %d)", (unsigned long long)k, x); m->insert(k, v); ref[k] = x; break; }
+		case 0: { uint64_t k = absent_key(); int x = nextv++; const V v(x); c.op("insert(%llu, const& %d)", (unsigned long long)k, x); m->insert(k, v); ref[k] = x; break; }
+		case 1: { uint64_t k = absent_key(); int x = nextv++; V v(x); c.op("insert(%llu, lvalue %d)", (unsigned long long)k, x); m->insert(k, v); ref[k] = x;
+			VCHECK(c, "C14", payload(v) == x, "insert(key, lvalue) changed its value argument from %d to %d: it was moved from", x, payload(v)); break; }
 		case 2: { uint64_t k = absent_key(); int x = nextv++; c.op("insert(%llu, && %d)", (unsigned long long)k, x); m->insert(k, V(x)); ref[k] = x; break; }
 		case 3: case 4: case 5: {
 			uint64_t k = t.pick(3) ? absent_key() : key();
@@ -189,6 +192,8 @@ void run_alias(Ctx &c) {
 	c.tag("alias-battery");
 	Map *m = c.make<Map>(KH{mode}, track_alloc{});
 	std::map<int, int> ref;
+	std::map<int, int> refname;      // the name member of the value stored under a key (normally the key itself)
+	auto name_of = [&](int k) { auto it = refname.find(k); return it == refname.end() ? k : it->second; };
 	int nextv = 1;
 	bool removed_any = false; size_t maxsize = 0;
 	int fresh = 100;
@@ -201,14 +206,14 @@ void run_alias(Ctx &c) {
 			Obj *g = m->get(key);
 			auto it = ref.find(k);
 			VCHECK(c, "C14", (g != nullptr) == (it != ref.end()), "after %s: get(%d) is %s", after, k, g ? "found, but the key is absent" : "null, but the key is present");
-			if(g) VCHECK(c, "C14", g->name.get() == k && g->extra.get() == it->second, "after %s: get(%d) yields the entry (%d, %d), reference value %d", after, k, g->name.get(), g->extra.get(), it->second);
+			if(g) VCHECK(c, "C14", g->name.get() == name_of(k) && g->extra.get() == it->second, "after %s: get(%d) yields the value (%d, %d), reference value (%d, %d)", after, k, g->name.get(), g->extra.get(), name_of(k), it->second);
 		}
 		std::map<int, int> seen; size_t n = 0;
 		for(auto it = m->begin(); !(it == m->end()); ++it) {
 			VCHECK(c, "C14", ++n <= ref.size(), "after %s: iteration yields more than %zu entries", after, ref.size());
 			int k = it->get<0>().get();
 			VCHECK(c, "C14", !seen.count(k), "after %s: iteration yields key %d twice", after, k);
-			VCHECK(c, "C14", it->get<1>().name.get() == k, "after %s: entry with key %d holds the value of key %d", after, k, it->get<1>().name.get());
+			VCHECK(c, "C14", it->get<1>().name.get() == name_of(k), "after %s: entry with key %d holds the value named %d, reference %d", after, k, it->get<1>().name.get(), name_of(k));
 			seen[k] = it->get<1>().extra.get();
 		}
 		VCHECK(c, "C14", seen == ref, "after %s: iteration yields %zu entries that differ from the %zu reference entries", after, seen.size(), ref.size());
@@ -217,21 +222,25 @@ void run_alias(Ctx &c) {
 	};
 	unsigned nops = 1 + t.pick(40);
 	for(unsigned i = 0; i < nops && !t.done(); i++) {
-		unsigned op = t.pick(8);
+		unsigned op = t.pick(10);
 		const char *what = "the operation";
 		switch(op) {
 		case 0: case 1: { int k = absent(), e = nextv++; Obj o(k, e); c.op("insert(o.name, move(o)) with o = (%d, %d)", k, e); c.tag("key-inside-moved-value"); m->insert(o.name, std::move(o)); ref[k] = e; break; }
 		case 2: { int k = absent(), e = nextv++; const Obj o(k, e); c.op("insert(o.name, o) with o = (%d, %d)", k, e); m->insert(o.name, o); ref[k] = e; break; }
 		case 3: if(!ref.empty()) { int src = std::next(ref.begin(), t.pick(ref.size()))->first; int k = absent(); TKey sk(src); Obj *g = m->get(sk); if(!g) break;
 			c.op("insert(%d, copy of *get(%d)) (value refers into the map)", k, src); c.tag("value-inside-map");
-			Obj tmp(k, g->extra.get()); m->insert(TKey(k), tmp); ref[k] = ref[src]; break; }
+			Obj tmp(k, g->extra.get()); m->insert(TKey(k), tmp); ref[k] = ref[src];
+			VCHECK(c, "C14", tmp.name.get() == k && tmp.extra.get() == ref[src], "insert(key, lvalue) changed its value argument to (%d, %d): it was moved from", tmp.name.get(), tmp.extra.get()); break; }
+		case 8: if(!ref.empty()) { int src = std::next(ref.begin(), t.pick(ref.size()))->first; int k = absent(); TKey sk(src); Obj *g = m->get(sk); if(!g) break;
+			c.op("insert(%d, *get(%d)) (the value argument is an lvalue that lives in the map)", k, src); c.tag("insert-lvalue-from-map");
+			m->insert(TKey(k), *g); ref[k] = ref[src]; refname[k] = name_of(src); break; }     // the source entry must stay as it is (checked by check_all)
 		case 4: if(!ref.empty()) { int src = std::next(ref.begin(), t.pick(ref.size()))->first; int k = absent(); TKey sk(src); Obj *g = m->get(sk); if(!g) break;
 			c.op("map[%d].extra = get(%d)->extra (operator[] may rehash)", k, src); c.tag("bracket-with-live-pointer");
 			const Tracked &e = g->extra; Obj &slot = (*m)[TKey(k)]; slot.name = TKey(k); slot.extra = e; ref[k] = ref[src]; break; }
 		case 5: if(!ref.empty()) { int k = std::next(ref.begin(), t.pick(ref.size()))->first; auto it = m->find(TKey(k)); if(it == m->end()) break;
 			c.op("remove(find(%d)->key) (the key argument lives in the entry being removed)", k); c.tag("remove-by-entry-key");
-			auto r = m->remove(it->get<0>()); VCHECK(c, "C14", (bool)r && r->extra.get() == ref[k], "remove through the entry's own key returned %s", r ? "another value" : "null_opt"); ref.erase(k); removed_any = true; break; }
-		case 6: if(!ref.empty()) { int k = std::next(ref.begin(), t.pick(ref.size()))->first; c.op("remove(%d)", k); auto r = m->remove(TKey(k)); VCHECK(c, "C14", (bool)r && r->extra.get() == ref[k] && r->name.get() == k, "remove(%d) returned %s", k, r ? "another value" : "null_opt"); ref.erase(k); removed_any = true; } break;
+			auto r = m->remove(it->get<0>()); VCHECK(c, "C14", (bool)r && r->extra.get() == ref[k], "remove through the entry's own key returned %s", r ? "another value" : "null_opt"); ref.erase(k); refname.erase(k); removed_any = true; break; }
+		case 6: if(!ref.empty()) { int k = std::next(ref.begin(), t.pick(ref.size()))->first; c.op("remove(%d)", k); auto r = m->remove(TKey(k)); VCHECK(c, "C14", (bool)r && r->extra.get() == ref[k] && r->name.get() == name_of(k), "remove(%d) returned %s", k, r ? "another value" : "null_opt"); ref.erase(k); refname.erase(k); removed_any = true; } break;
 		default: { unsigned n = 1 + t.pick(12); c.op("insert(o.name, move(o)) x%u", n); for(unsigned j = 0; j < n; j++) { int k = absent(), e = nextv++; Obj o(k, e); m->insert(o.name, std::move(o)); ref[k] = e; } break; }
 		}
 		maxsize = std::max(maxsize, ref.size());
@@ -243,10 +252,93 @@ void run_alias(Ctx &c) {
 	c.nontrivial = c.focus() == "C16" ? (removed_any && maxsize >= 2) : maxsize > 10;
 }
 
+// ---- the hash functors of hash.hpp / string.hpp with their key types, and heterogeneous get() ----------------
+struct Header { long h0, h1; };
+struct PNode { int v; };
+struct Object : Header, PNode { int extra; };       // the PNode base does not sit at offset 0: Object* -> PNode* adjusts the pointer
+void run_keyzoo(Ctx &c) {
+	auto &t = c.t;
+	unsigned which = t.pick(5);
+	c.op("key types and hash functors of the library, battery %u", which);
+	c.tagf("keyzoo-%u", which);
+	unsigned nops = 4 + t.pick(40);
+	switch(which) {
+	case 0: {   // pointer keys, looked up through pointers to a derived class
+		using Map = frg::hash_map<PNode *, int, frg::hash<PNode *>, track_alloc>;
+		Object *objs = (Object *)c.raw(sizeof(Object) * 32); for(int i = 0; i < 32; i++) new (&objs[i]) Object();
+		Map *m = c.make<Map>(frg::hash<PNode *>{}, track_alloc{});
+		std::map<int, int> ref; int nextv = 1;
+		for(unsigned i = 0; i < nops; i++) {
+			int k = t.pick(32); PNode *key = &objs[k];
+			switch(t.pick(4)) {
+			case 0: case 1: if(!ref.count(k)) { c.op("insert(&obj[%d] as node*)", k); m->insert(key, nextv); ref[k] = nextv++; } break;
+			case 2: if(ref.count(k)) { c.op("remove(&obj[%d])", k); auto r = m->remove(key); VCHECK(c, "C14", r && *r == ref[k], "remove(node*) of a present pointer key failed"); ref.erase(k); } break;
+			default: { c.op("map[&obj[%d]]", k); bool present = ref.count(k); int &r = (*m)[key]; VCHECK(c, "C14", r == (present ? ref[k] : 0), "operator[] on a pointer key yields %d", r); r = nextv; ref[k] = nextv++; } break;
+			}
+			for(int j = 0; j < 32; j++) {
+				Object *derived = &objs[j]; const PNode *ck = &objs[j];
+				int *a = m->get(static_cast<PNode *>(derived)), *b = m->get(derived), *d = m->get(const_cast<PNode *>(ck));
+				bool present = ref.count(j);
+				VCHECK(c, "C14", (a != nullptr) == present && (!present || *a == ref[j]), "get(node*) of %s pointer key #%d", present ? "a present" : "an absent", j);
+				VCHECK(c, "C14", b == a, "get(object*) of pointer key #%d %s although get(node*) %s: the key compares equal to the stored one (the derived pointer converts to it)", j, b ? "finds an entry" : "finds nothing", a ? "finds it" : "finds nothing");
+				VCHECK(c, "C14", d == a, "get through a pointer obtained from a const pointer differs for key #%d", j);
+			}
+			VCHECK(c, "C14", m->size() == ref.size(), "size() is %zu, reference %zu", m->size(), ref.size());
+		}
+		c.destroy(m); break; }
+	case 1: case 2: case 3: {   // integer keys of the specialised hash functors, negative and large values, looked up through other integer types
+		auto body = [&](auto *mp, auto keyof) {
+			std::map<long long, int> ref; int nextv = 1;
+			for(unsigned i = 0; i < nops; i++) {
+				unsigned sel = t.pick(24); auto key = keyof(sel);
+				switch(t.pick(4)) {
+				case 0: case 1: if(!ref.count((long long)key)) { c.op("insert(%lld)", (long long)key); mp->insert(key, nextv); ref[(long long)key] = nextv++; } break;
+				case 2: if(ref.count((long long)key)) { c.op("remove(%lld)", (long long)key); auto r = mp->remove(key); VCHECK(c, "C14", r && *r == ref[(long long)key], "remove(%lld) failed", (long long)key); ref.erase((long long)key); } break;
+				default: { c.op("map[%lld]", (long long)key); int &r = (*mp)[key]; r = nextv; ref[(long long)key] = nextv++; } break;
+				}
+				for(unsigned j = 0; j < 24; j++) { auto k2 = keyof(j); bool present = ref.count((long long)k2); int *g = mp->get(k2); auto f = mp->find(k2);
+					VCHECK(c, "C14", (g != nullptr) == present && (!present || *g == ref[(long long)k2]) && (f != mp->end()) == present, "get/find(%lld) of %s key", (long long)k2, present ? "a present" : "an absent");
+					long long wide = (long long)k2; int *gw = mp->get(wide);      // the same value as another integer type
+					VCHECK(c, "C14", gw == g, "get(%lld as long long) %s although get with the key type %s", wide, gw ? "finds an entry" : "finds nothing", g ? "finds it" : "finds nothing"); }
+				VCHECK(c, "C14", mp->size() == ref.size(), "size() is %zu, reference %zu", mp->size(), ref.size());
+			}
+		};
+		static const long long vals[24] = {0, 1, -1, 2, -2, 7, -7, 1000, -1000, 65535, 65536, -65536, 2147483647ll, -2147483647ll - 1, 2147483646ll, -2147483647ll, 123456789, -123456789, 10, 20, 40, 80, -40, -80};
+		if(which == 1) { using Map = frg::hash_map<int, int, frg::hash<int>, track_alloc>; Map *m = c.make<Map>(frg::hash<int>{}, track_alloc{}); body(m, [](unsigned s) { return (int)vals[s]; }); c.destroy(m); }
+		else if(which == 2) { using Map = frg::hash_map<int64_t, int, frg::hash<int64_t>, track_alloc>; Map *m = c.make<Map>(frg::hash<int64_t>{}, track_alloc{});
+			body(m, [](unsigned s) { return (int64_t)((uint64_t)vals[s] * (s & 1 ? 4294967297ull : 1ull)); }); c.destroy(m); }
+		else { using Map = frg::hash_map<unsigned, int, frg::hash<unsigned>, track_alloc>; Map *m = c.make<Map>(frg::hash<unsigned>{}, track_alloc{}); body(m, [](unsigned s) { return (unsigned)vals[s]; }); c.destroy(m); }
+		break; }
+	default: {   // string_view keys: equal contents in different buffers are the same key
+		using Map = frg::hash_map<frg::string_view, int, frg::hash<frg::string_view>, track_alloc>;
+		Map *m = c.make<Map>(frg::hash<frg::string_view>{}, track_alloc{});
+		static const char *words[12] = {"", "a", "b", "ab", "ba", "aa", "abc", "abd", "a\0b", "root", "rootfs", "x"};
+		std::map<std::string, int> ref; int nextv = 1;
+		auto view_of = [&](unsigned w, bool copy) { std::string s = w == 8 ? std::string("a\0b", 3) : std::string(words[w]); if(!copy) return frg::string_view(words[w], s.size());
+			char *p = (char *)malloc(s.size()); c.arena.push_back({p, nullptr}); if(!s.empty()) memcpy(p, s.data(), s.size()); return frg::string_view(p, s.size()); };
+		for(unsigned i = 0; i < nops; i++) {
+			unsigned w = t.pick(12); std::string key = w == 8 ? std::string("a\0b", 3) : std::string(words[w]);
+			switch(t.pick(4)) {
+			case 0: case 1: if(!ref.count(key)) { c.op("insert(\"%s\")", words[w]); m->insert(view_of(w, false), nextv); ref[key] = nextv++; } break;
+			case 2: if(ref.count(key)) { c.op("remove(\"%s\" in another buffer)", words[w]); auto r = m->remove(view_of(w, true)); VCHECK(c, "C14", r && *r == ref[key], "remove of a present string_view key through an equal view failed"); ref.erase(key); } break;
+			default: { c.op("map[\"%s\"]", words[w]); int &r = (*m)[view_of(w, true)]; r = nextv; ref[key] = nextv++; } break;
+			}
+			for(unsigned j = 0; j < 12; j++) { std::string k2 = j == 8 ? std::string("a\0b", 3) : std::string(words[j]); bool present = ref.count(k2); int *g = m->get(view_of(j, true));
+				VCHECK(c, "C14", (g != nullptr) == present && (!present || *g == ref[k2]), "get(\"%s\" in another buffer) of %s key", words[j], present ? "a present" : "an absent"); }
+			VCHECK(c, "C14", m->size() == ref.size(), "size() is %zu, reference %zu", m->size(), ref.size());
+		}
+		c.destroy(m); break; }
+	}
+	c.check_san("C14");
+	VTRACK_END(c);
+	c.nontrivial = nops >= 12;
+}
+
 } // namespace
 
 void verif_case(Ctx &c) {
-	unsigned kind = c.t.pick(5);
-	if(kind == 4) run_alias(c);
+	unsigned kind = c.t.pick(6);
+	if(kind == 5) { if(c.focus() == "C16") run<Tracked>(c); else run_keyzoo(c); }
+	else if(kind == 4) run_alias(c);
 	else if(kind < 2 && c.focus() != "C16") run<int>(c); else run<Tracked>(c);
 }
